@@ -108,6 +108,26 @@ def oracle_fn(ctx, item, df):
                     F(f"infer_type on columns {sub} gives {st}, on the whole frame {it_}", "subset-differs")
             except Exception:  # noqa
                 pass
+        # history: the same frame object typed, edited in place (dtypes unchanged), typed again: the answer is that of its CURRENT cells
+        if len(df) and len(df.columns) and df.columns.is_unique:
+            try:
+                dfm = df.copy()
+                ts.infer_type(dfm), ts.detect_type(dfm)
+                d0 = dfm.dtypes.copy()
+                for c in dfm.columns:
+                    if dfm[c].dtype == object:
+                        dfm[c] = pd.Series(["x y"] * len(dfm), index=dfm.index, dtype=object)
+                    elif dfm[c].dtype.kind == "f":
+                        dfm[c] = 0.5
+                if dfm.dtypes.equals(d0):
+                    it2, dt2 = ts.infer_type(dfm), ts.detect_type(dfm)
+                    for c in dfm.columns:
+                        if it2[c] is not ts.infer_type(dfm[c]) or dt2[c] is not ts.detect_type(dfm[c]):
+                            F(f"after editing the cells of the same frame object in place, infer_type/detect_type(df)[{c!r}] = {it2[c]}/{dt2[c]} "
+                              f"but the column now holds {list(dfm[c])[:3]} typed {ts.infer_type(dfm[c])}", "stale-after-inplace-edit")
+                            break
+            except Exception:  # noqa
+                pass
         # functional wrappers
         try:
             if vf.detect_type(df, ts) != dt or vf.infer_type(df, ts) != it_:
